@@ -448,6 +448,17 @@ def run(tier, t0):
                             res.violation('C14.6', 'C14.6|unloaded|offset', f, s.get('line'), 'the per-frame offset is %s, not frame.instruction - unloaded.raw.base_of_image' % e[:160])
     if seen_off < 2:
         res.error('C14.6', 'unloaded-module attribution code not found')
+    # the per-frame attribution is only as complete as the lookup it iterates: modules_at_address must return every
+    # unloaded module covering the address (C08.5: sorted once, filtered with range.contains over the whole list)
+    from . import backing
+    try:
+        summ = backing.collect('C08')
+        n6 += 1
+        bad = [k for r, k in summ['violations'] if r == 'C08.5'] + (['precondition'] if 'C08.5' in summ['errors'] else [])
+        if bad or 'C08.5' not in summ['rules']:
+            res.violation('C14.6', 'C14.6|unloaded|lookup-complete', body, None, 'MinidumpUnloadedModuleList::modules_at_address does not return every covering module (rule C08.5 fails: %s), so frames lose unloaded-module entries' % (bad[:2] or 'rule missing'))
+    except Exception as e:
+        res.error('C14.6', 'could not consult C08.5: %r' % (e,))
     res.rule('C14.6', n6, floor=8, note='modules / unloaded modules / system info / handles are the streams\' values; per-frame unloaded offsets')
 
     res.assumptions += [
